@@ -33,12 +33,12 @@ Proof.
   split; [apply wsb_ok; exact A | split; [apply nonnilb_ok; exact B | exact C]].
 Qed.
 Definition setting_okb (regs : list (str * vregion)) (p : skey * str) : bool :=
-  sval_ok (snd p) && nonnilb (snd p) &&
+  sval_ok (snd p) &&
   match fst p with KRegion => match aget (snd p) regs with Some rg => str_eqb (rg_id rg) (snd p) | None => false end | _ => true end.
 Lemma setting_okb_ok regs p : setting_okb regs p = true -> setting_ok regs p.
 Proof.
-  unfold setting_okb, setting_ok. intros H. rewrite !andb_true_iff in H. destruct H as ((H1 & H2) & H3).
-  split; [exact H1|]. split; [apply nonnilb_ok; exact H2|]. destruct (fst p); try exact I.
+  unfold setting_okb, setting_ok. intros H. rewrite !andb_true_iff in H. destruct H as (H1 & H3).
+  split; [exact H1|]. destruct (fst p); try exact I.
   destruct (aget (snd p) regs) as [rg|]; [|discriminate]. exists rg. split; [reflexivity | apply str_eqb_eq; exact H3].
 Qed.
 Definition time_okb (t : Z) : bool := ((0 <=? t) && (t <=? max_int64))%Z.
